@@ -9,7 +9,7 @@ fuzz_target!(|data: &[u8]| {
     QUIET.call_once(|| std::panic::set_hook(Box::new(|_| {})));
     let Ok(s) = std::str::from_utf8(data) else { return };
     // characters no XML 1.0 document can carry are outside the domain of the property
-    if !s.chars().all(|c| matches!(c as u32, 0x9 | 0xA | 0xD | 0x20..=0xD7FF | 0xE000..=0xFFFD | 0x10000..=0x10FFFF)) { return; }
+    if !s.chars().all(|c| matches!(c as u32, 0x20..=0xD7FF | 0xE000..=0xFFFD | 0x10000..=0x10FFFF)) { return; }
     thread_local! { static QR: fast_qr::QRCode = QRBuilder::new("FQ").build().unwrap(); }
     QR.with(|qr| { let _ = std::panic::catch_unwind(std::panic::AssertUnwindSafe(|| { let mut b = SvgBuilder::default(); b.image(s.to_string()); let _ = b.to_str(qr); })); });
 });
